@@ -363,16 +363,12 @@ Proof.
   - rewrite ct_numeral_num. reflexivity.
 Qed.
 
-Set Warnings "-abstract-large-number".
-Lemma key_of_name_of_key : forall k, (match k with KDE n => n < 10000 | KOther _ => False | _ => True end) ->
+Lemma key_of_name_of_key : forall k, (match k with KDE n => (N.of_nat n < 10000)%N | KOther _ => False | _ => True end) ->
   key_of_name (name_of_key k) = k.
 Proof.
   intros k H. destruct k as [|n|t|t| |t]; try reflexivity; [|contradiction].
-  apply ct_key_of_DE.
-  assert (E : 10000 = N.to_nat 10000%N) by (vm_compute; reflexivity).
-  rewrite E in H. lia.
+  apply ct_key_of_DE. lia.
 Qed.
-Set Warnings "abstract-large-number".
 
 (* ====================================================================== 4. the tools on the text *)
 
